@@ -17,7 +17,8 @@ RULE = ("Model-based generation of call histories: for each estimator family Hyp
         "so it shrinks and replays as a whole. The input and parameter objects are created once and reused by every call. After every "
         "operation: (a) every input object and every container passed as a constructor parameter is deep-equal to its snapshot (lists, "
         "tuples, dicts, sets, ndarrays by dtype/shape/bytes, sparse matrices by format and raw data/indices/indptr); (b) transform(X_i) "
-        "equals the first result obtained for X_i under the current fitted model; (c) a twin with the same integer random_state fitted "
+        "equals the first result obtained for X_i under the current fitted model and the result of a single transform call on a deep "
+        "copy of the freshly fitted model (every second input of the distribution families lists its support in another order); (c) a twin with the same integer random_state fitted "
         "on deep-copied data agrees to 1e-9 on outputs; (d) the private directory serving as TMPDIR and cachedir is empty. A call that "
         "must raise has to raise, and (a), (b), (d) must hold afterwards. Non-trivial: >= 2 transforms of different inputs after a fit, "
         "or a raising call followed by a transform, or a user-supplied parameter object; distinct by SHA-1 of the case.")
@@ -31,7 +32,7 @@ def with_history(fam):
         spec = draw(fam.strategy(tier))
         n_tr, n_te = fam.n_items(spec["train"]), fam.n_items(spec["test"])
         pool = [("test", i) for i in range(n_te)] + [("train", i) for i in range(n_tr)]
-        n_inputs = draw(st.integers(1, 3))
+        n_inputs = draw(st.integers(2 if isinstance(spec["test"], dict) else 1, 3))     # distribution families: >= 2 inputs (the second lists its support in another order)
         inputs = []
         for _ in range(n_inputs):
             k = draw(st.integers(1, min(6, len(pool))))
@@ -173,8 +174,13 @@ def _run(name, fam, spec, r, np, sp, private):
     train_X, train_kw = fam.args(spec, spec["train"])
     train_kw = fam.fit_kwargs(spec, spec["train"])
     inputs = []
-    for picks in spec["inputs"]:
+    for j_, picks in enumerate(spec["inputs"]):
         data = gather(spec, [tuple(p) for p in picks])
+        if isinstance(data, dict) and j_ >= 1 and (name.startswith("wass_LOT") or name == "sinkhorn"):
+            # the same measures over a re-ordered vector set: a later call must not depend on the vectors of an earlier one
+            m_ = len(data["V"])
+            order = list(range(m_))[::-1]
+            data = {"W": [[row[c] for c in order] for row in data["W"]], "V": [data["V"][c] for c in order]}
         X, kw = (fam.transform_args(spec, data, est) if hasattr(fam, "transform_args") else fam.args(spec, data))
         inputs.append({"data": data, "X": X, "kw": kw})
     params = containers_of_params(est)
@@ -185,6 +191,7 @@ def _run(name, fam, spec, r, np, sp, private):
     if params:
         r.label("has-parameter-objects")
     memo = {}
+    pristine = [None]
     fitted = False
     n_transforms_since_fit = set()
     raised_then_transform = False
@@ -235,6 +242,11 @@ def _run(name, fam, spec, r, np, sp, private):
             fitted = True
             memo.clear()
             n_transforms_since_fit = set()
+            # a pristine copy of the freshly fitted model: what a *single* transform call returns is computed on copies of it
+            try:
+                pristine[0] = copy.deepcopy(est)
+            except Exception:
+                pristine[0] = None          # estimators holding compiled closures cannot be copied: memo comparison only
             check_invariants("%s(train)" % op)
         elif op in ("transform", "transform_train"):
             if not fitted:
@@ -255,6 +267,17 @@ def _run(name, fam, spec, r, np, sp, private):
                 r.fail(exc_kind(out), site + ".transform", exc_detail(out))
                 return
             rows = fam.canon(out, spec)
+            if pristine[0] is not None and not is_gen:
+                try:
+                    single_est = copy.deepcopy(pristine[0])
+                    s1, single = call(single_est.transform, X, **kw)
+                except Exception:
+                    s1, single = "skip", None
+                if s1 == "ok":
+                    msg = rows_equal(np, rows, fam.canon(single, spec), fam.exact, 1e-9, 1e-12, equal_nan=True)
+                    if msg:
+                        r.fail("history-dependent", site + ".transform", "transform(%s) after other calls differs from a single call on a fresh copy of the fitted model: %s" % (key, msg))
+                    r.label("single-call-oracle")
             if key in memo:
                 msg = rows_equal(np, rows, memo[key], fam.exact, 1e-9, 1e-12, equal_nan=True)
                 if msg:
@@ -336,7 +359,7 @@ FAMS13 = [("ngram", 150, 1500), ("skipgram", 80, 800), ("lz", 100, 1000), ("bpe_
           ("hist", 100, 1000), ("kde", 60, 600), ("iw", 120, 1200), ("rowdenoise", 120, 1200), ("cfc", 120, 1200), ("edgelist", 100, 1000),
           ("tree_cooc", 100, 1000), ("token_cooc", 60, 600), ("timed_cooc", 50, 500), ("multi_cooc", 50, 500), ("ngram_cooc", 50, 500),
           ("wass_LOT_exact_spmatrix", 50, 500), ("wass_LOT_exact_lil", 50, 500), ("wass_LOT_exact_generator", 30, 300),
-          ("wass_LOT_sinkhorn_spmatrix", 40, 400), ("wass_HeuristicLinearAlgebra_spmatrix", 60, 600), ("sinkhorn", 40, 400), ("approx", 60, 600)]
+          ("wass_LOT_sinkhorn_spmatrix", 80, 600), ("wass_HeuristicLinearAlgebra_spmatrix", 60, 600), ("sinkhorn", 80, 600), ("approx", 60, 600)]
 FAMILIES = {}
 for _n, _q, _t in FAMS13:
     FAMILIES[_n] = Family(with_history(F.get(_n)), make_check(_n), {"quick": _q, "thorough": _t}, {"quick": 1, "thorough": 6})
